@@ -308,6 +308,59 @@ def rendering_spaces(ctx: Ctx):
     ctx.require_min("collator rendering pairs", 3)
 
 
+def explicit_order_model(ctx: Ctx, m, where: str, recognised: bool):
+    """When the function is not written with the consume-from-a-map idiom that ORDERKIT recognises, its SUMMARISED
+    expression is evaluated (DECTAB) on model dimensions: ids listed once / twice / unknown / naming a DERIVED element, and
+    compared with the specified order: listed non-derived ids (first mention), then the other non-derived elements in
+    payload order; derived elements never appear among the base descriptors (they are placed by their anchors)."""
+    from ..dectab import DTop, ModelInterp, Raises
+    from ..symex import SUMMARIZER as _S
+
+    if recognised:
+        return
+    try:
+        body = _S.summarize(m.node)
+    except Exception as exc:  # loops / generators the summariser does not turn into an expression
+        ctx.undecided("explicit-order.model", where, f"not summarised to an expression: {type(exc).__name__}", "descriptor list on model dimensions")
+        return
+    elements = [(1, False), (2, False), (3, True), (4, False), (0, False)]
+    orders = [(), (4, 1), (4, 4, 1), (9, 2), (3, 1), (0, 3, 4), (2, 1, 0, 4)]
+    model_elements = [{".element_id": i, ".derived": d} for i, d in elements]
+    bad, n = [], 0
+    try:
+        for order in orders:
+            def atoms(x, order=order):
+                t = u(x)
+                if t == "self._elements":
+                    return model_elements
+                if t == "self._order_spec.element_ids":
+                    return order
+                raise KeyError
+
+            base = [i for i, d in elements if not d]
+            listed = []
+            for i in order:
+                if i in base and i not in listed:
+                    listed.append(i)
+            ids = listed + [i for i in base if i not in listed]
+            idx_of = {i: k for k, (i, _d) in enumerate(elements)}
+            want = tuple((pos, idx_of[i], i) for pos, i in enumerate(ids))
+            n += 1
+            try:
+                got = tuple(tuple(x) for x in ModelInterp(atoms).ev(body))
+            except Raises as r:
+                bad.append(f"order {order}: raises {r.etype}")
+                continue
+            if got != want:
+                bad.append(f"order {order}: {got}, specified {want}")
+    except DTop as t:
+        ctx.undecided("explicit-order.model", where, "DECTAB: " + str(t), "descriptor list on model dimensions")
+        return
+    ctx.count("explicit-order models", n)
+    ctx.ob("explicit-order.model", where, bad[:3] or f"{n} model orders", "listed non-derived ids (first mention wins, unknown ignored), then the remaining non-derived elements in payload order", not bad,
+           "a derived item named in the id list is placed as a base element AND by its anchor: it appears twice in the order")
+
+
 def explicit_order(ctx: Ctx):
     ex = ctx.repo.cls(COL, "ExplicitOrderCollator")
     m = ctx.repo.lookup(ex, "_element_order_descriptors")
@@ -327,6 +380,7 @@ def explicit_order(ctx: Ctx):
     ctx.ob("explicit-order", where + " [remaining map over the non-derived elements in payload order]", f"over self._elements: {f['map_over_elements']}; derived excluded: {f['map_excludes_derived']}", "built by enumerating self._elements, derived elements excluded",
            True if (f["map_over_elements"] and f["map_excludes_derived"]) else None)
     ctx.ob("explicit-order", where + " [leftovers in payload order]", f["leftovers"], "the map is iterated after the listed ids", True if f["leftovers"] else None)
+    explicit_order_model(ctx, m, where, recognised=bool(f["listed_loop"] and f["listed_pop_guarded"] and f["leftovers"]))
     os_ = ctx.repo.cls(DIM, "_OrderSpec")
     e = expand(ctx.repo, os_, "element_ids", stop=lambda mm: True)
     ctx.check_expr("explicit-order", f"{DIM}::_OrderSpec.element_ids", e, "tuple(self._order_dict.get('element_ids') or [])")
